@@ -78,7 +78,10 @@ def logical(name, x, step=None):
     if spec["kind"] == "position":
         d = dict(lon=[p[0] for p in x], lat=[p[1] for p in x])
     if "t" in spec["needs"]:
-        d["secs"] = alpha.regular_secs(n) if step is None else [alpha.T0 + step * i for i in range(n)]
+        if step == "irr":   # irregular sampling: an outage and a burst inside ordinary 60 s steps
+            d["secs"] = alpha.times_from_gaps([(60, 160, 10, 60, 200)[i % 5] for i in range(max(n - 1, 0))])[:n] if n else []
+        else:
+            d["secs"] = alpha.regular_secs(n) if step is None else [alpha.T0 + step * i for i in range(n)]
     if "z" in spec["needs"]:
         d["z"] = [5.0 + (i % 3) for i in range(n)] if name == "climatology_test" else [10.0 + i * (1 if i < 3 else -1) for i in range(n)]
     return d
@@ -328,6 +331,8 @@ def run_task(task, acc):
         cfgs = [spec["cfgs"][ci]]
     for x in series:
       variants_ = [(None, None)] + ([(1.5, None), (2.25, None)] if name == "rate_of_change_test" else [])
+      if name in ("attenuated_signal_test", "rate_of_change_test", "speed_test") and len(x) >= 3:
+          variants_.append(("irr", None))
       if "voff" in spec["rel"] and any(v == NAN for v in x) and len(x) <= 4:
           variants_.append((None, "ma"))
       for step, carrier in variants_:
